@@ -69,6 +69,7 @@ fn parse_case(case: &str) -> (u8, Vec<FileSpec>)
 	for t in it
 	{
 		if t.starts_with("W=") { continue; }   // the image the generator intends (judged by the driver)
+		if t.starts_with("rel=") { continue; }  // how the source is named on the command line
 		let mut p = t.splitn(3, ':');
 		let kind = p.next().unwrap();
 		let name = p.next().unwrap().to_string();
@@ -119,13 +120,18 @@ impl Runner
 		let outp = dir.join("out.uf2");
 		let sent = sentinel();
 		if out != 2 { std::fs::write(&outp, &sent).unwrap(); }
+		// rel=1: the source and the output are named by bare relative names (`trias main.asm out.uf2` inside the directory)
+		let rel = case.split_whitespace().any(|t| t == "rel=1");
+		let (main_arg, out_arg): (PathBuf, PathBuf) = if rel { (PathBuf::from(&files[0].name), PathBuf::from("out.uf2")) } else { (main.clone(), outp.clone()) };
 		// the program image, from the library
-		let lib = run_pipeline(&files[0].data, main.to_str().unwrap());
+		if rel { std::env::set_current_dir(&dir).unwrap(); }
+		let lib = run_pipeline(&files[0].data, main_arg.to_str().unwrap());
+		if rel { std::env::set_current_dir("/").unwrap(); }
 		let p_text = if lib.success() { lib.fmt_regions() } else { format!("!{}", lib.fmt_status()) };
 		// the real binary
 		let mut cmd = Command::new(&self.trias);
-		cmd.arg(&main);
-		if out != 0 { cmd.arg(&outp); }
+		cmd.arg(&main_arg);
+		if out != 0 { cmd.arg(&out_arg); }
 		cmd.current_dir(&dir).stdin(std::process::Stdio::null());
 		let res = match cmd.output()
 		{
@@ -477,7 +483,8 @@ fn main()
 				let (files, w) = program_w(&mut rng, &regs, inc, fail);
 				// a layout without overlaps and without a failing statement must assemble to exactly the bytes written down
 				let tag = match (&w, fail, overlap) { (Some(w), None, false) => format!(" W={}", w), _ => String::new() };
-				emit(format!("{}{}", fmt_case(o, &files), tag), &mut out, &mut runner);
+				let rel = if rng.chance(1, 3) { " rel=1" } else { "" };
+				emit(format!("{}{}{}", fmt_case(o, &files), tag, rel), &mut out, &mut runner);
 			}
 		},
 	}
